@@ -12,10 +12,11 @@ Byte strings are lists of numbers.  Gas is unbounded here; the implementation ad
 the gas limits of one window do not sum to 2^64).
 -/
 import Shutter.Model.AMap
+import Shutter.Model.Sort
 
 namespace Shutter.GnosisSlot
+open Shutter.Sort
 
-abbrev Bytes := List Nat
 
 /-- a row of `transaction_submitted_event` (the columns the slot handler reads) -/
 structure Tx where
@@ -51,25 +52,7 @@ structure State where
   trig : AMap Int Trig := []
 deriving Repr
 
-/-! ### sorting (insertion sort: structural, so that closed instances evaluate by `decide`) -/
-
-def insertBy {α : Type} (le : α → α → Bool) (a : α) : List α → List α
-  | [] => [a]
-  | b :: rest => if le a b then a :: b :: rest else b :: insertBy le a rest
-
-def isort {α : Type} (le : α → α → Bool) : List α → List α
-  | [] => []
-  | a :: rest => insertBy le a (isort le rest)
-
 /-! ### identities -/
-
-/-- `bytes.Compare a b <= 0` -/
-def bytesLe : Bytes → Bytes → Bool
-  | [], _ => true
-  | _ :: _, [] => false
-  | a :: as, b :: bs => if a < b then true else if b < a then false else bytesLe as bs
-
-def sortIds (l : List Bytes) : List Bytes := isort bytesLe l
 
 /-- big-endian digits, most significant first, exactly `n` of them (higher digits dropped, as
     `BigToHash(...)[12:]` does for a `uint64`, where nothing is dropped) -/
